@@ -7,6 +7,7 @@ SPEC = {
         "runs": [{"args": [], "corpus": ""}],
     },
     "skip_model_prefix": ["x "],
+    "strip_obs": r" dig \S+",
     "rule": ("one case = one command packet sent through the real SessionManager.HandlePacket (special cases of handleCommandPacket, "
              "then the real CommandExecutor/CommandRegistry with every handler of internal/command and internal/app/server) into a fresh "
              "real in-memory server stack (memory storage, built-in cloud control, connection-code/port-mapping services, HTTP domain "
@@ -18,7 +19,11 @@ SPEC = {
              "handlers) over shared storage joined by a BridgeManager on an in-memory broker: sender identity x claimed body "
              "target_client_id x where the mapping's real target is connected (same node / other node / nowhere) x bridge on/off; "
              "the second run of every case also blanks the body's target_client_id unless the command is a DNS forward or a "
-             "client-to-client notification; observation = return value, response class, objects disclosed (id/secret substring search in everything "
+             "client-to-client notification, and drops the extra identity-like body keys: cases marked `e <v> <keys>` add EVERY "
+             "identity-like JSON key any struct of the server can decode (regenerated from the struct tags, Gen.c11.identityKeys; "
+             "the driver rejects a stale key list) to the body with a foreign client id; `dig` = digest of every payload pushed to "
+             "any connection and of every stored record created/changed (all fields; random ids, secrets and times removed), "
+             "required equal between the two runs; observation = return value, response class, objects disclosed (id/secret substring search in everything "
              "the sender received), semantic diff of mappings/codes/domains, command packets pushed to every fake control connection, "
              "connections closed; compared token-for-token with the model and judged by the theorem's predicate; distinct = distinct "
              "case strings"),
